@@ -474,6 +474,7 @@ def case_from_desc(d, cid='replay'):
     c = Case(cid, unhx(d['path_hex']), docs, d.get('filters', []), d.get('aggs', []), d.get('accessor', False),
              d.get('nocfg', False), d.get('mode', 'eval'), d.get('meta'))
     c.alias = bool(d.get('alias'))
+    c.packed = int(d.get('packed') or 0)
     c.pinned = bool(d.get('pinned'))
     return c
 
